@@ -672,9 +672,19 @@ func (g *gen) object(c gctx) *GDecl {
 				continue
 			}
 			used[k] = true
-			if r.Chance(0.5) || src.HasArray {
+			switch {
+			case src.HasArray || r.Chance(0.35):
 				d.Object = append(d.Object, KV{k, src})
-			} else {
+			case src.XPath != nil && r.Chance(0.5):
+				// the declaration as an array element, and again as a member of an object that is
+				// anchored on the same xpath: both are evaluated AT the matched node, one with its
+				// xpath already consumed by the array, the other not
+				d.Object = append(d.Object, KV{k, &GDecl{HasArray: true, Array: []*GDecl{src}}})
+				if !used["t3"] {
+					used["t3"] = true
+					d.Object = append(d.Object, KV{"t3", &GDecl{XPath: src.XPath, HasObject: true, Object: []KV{{"c", src}}}})
+				}
+			default:
 				d.Object = append(d.Object, KV{k, &GDecl{HasArray: true, Array: []*GDecl{src}}})
 			}
 			g.twins++
@@ -740,6 +750,16 @@ func (g *gen) schema() (Decls, string) {
 	fo := g.object(gctx{depth: 4})
 	if r.Chance(0.12) {
 		fo = g.decl(gctx{depth: 4})
+	}
+	if fo.HasObject && r.Chance(0.15) {
+		// an array of 10..14 plain constants at the top: its declared order is directly visible
+		n := r.Between(10, 14)
+		a := &GDecl{HasArray: true}
+		for i := 1; i <= n; i++ {
+			a.Array = append(a.Array, &GDecl{Const: sp(fmt.Sprintf("e%d", i))})
+		}
+		fo.Object = append(fo.Object, KV{"zarr", a})
+		g.bigArrays++
 	}
 	fo.XDyn = nil
 	fo.XPath = nil
